@@ -13,6 +13,7 @@ import (
 	"github.com/free5gc/ike/security/dh"
 	"github.com/free5gc/ike/security/encr"
 	"github.com/free5gc/ike/security/integ"
+	"github.com/free5gc/ike/security/lib"
 	"github.com/free5gc/ike/security/prf"
 
 	"verif/mc/engine"
@@ -61,6 +62,10 @@ func init() {
 			var cs c07Case
 			unmarshalCase(raw, &cs)
 			c07Prev = nil
+			if cs.K == "prfplus" {
+				c07PrfPlus(c, cs.PRF, cs.SecLen, cs.NonceLen)
+				return
+			}
 			if cs.K == "derive2" && cs.Then != nil {
 				first := cs
 				first.K, first.Then = "derive", nil
@@ -75,7 +80,48 @@ func init() {
 	})
 }
 
+// c07PrfPlus: the exported prf+ helper itself, for every stream length up to 1100 octets (far beyond the lengths
+// the key schedules ask for), key lengths around the HMAC block size and seed lengths 0..3 blocks; each call is made
+// twice on the same keyed hash object (the object is handed in by the caller and must be reusable).
+func c07PrfPlus(c *engine.Ctx, prfIdx, keyLen, seedLen int) {
+	p := ref.PRFs[prfIdx]
+	key, seed := univ.Pat(keyLen, keyLen+prfIdx), univ.Pat(seedLen, seedLen+3)
+	h := prf.StrToType(univ.PRFName(p)).Init(append([]byte(nil), key...))
+	maxN := 1100
+	if 255*p.KeyLen < maxN {
+		maxN = 255 * p.KeyLen
+	}
+	want := ref.PRFPlus(p, key, seed, maxN)
+	for n := 0; n <= maxN; n++ {
+		c.Evals++
+		for round := 0; round < 2; round++ {
+			var got []byte
+			seedArg := append(make([]byte, 0, seedLen+8), seed...) // spare capacity behind the caller's seed
+			tail := seedArg[seedLen : seedLen+8]
+			if pi := engine.Catch(func() { got = lib.PrfPlus(h, seedArg, n) }); pi != nil {
+				c.Violate(pi.Sig(), fmt.Sprintf("lib.PrfPlus(%s, %d-octet seed, %d) panics: %s", p.Digest, seedLen, n, pi.Value), c07Case{K: "prfplus", PRF: prfIdx, NonceLen: seedLen, SecLen: keyLen, Pat: n})
+				return
+			}
+			if !bytes.Equal(got, want[:n]) || !bytes.Equal(seedArg, seed) || !bytes.Equal(tail, make([]byte, 8)) {
+				c.Violate("prfplus/"+map[int]string{0: "first-call", 1: "second-call-on-same-object"}[round], fmt.Sprintf("lib.PrfPlus(%s, key %d octets, seed %d octets, %d) differs from RFC 7296 2.13 prf+ (or wrote into the caller's seed buffer)", p.Digest, keyLen, seedLen, n),
+					c07Case{K: "prfplus", PRF: prfIdx, NonceLen: seedLen, SecLen: keyLen, Pat: n})
+				return
+			}
+		}
+	}
+	c.DistinctS(fmt.Sprint("prfplus", prfIdx, keyLen, seedLen))
+}
+
 func runC07(c *engine.Ctx) {
+	for p := 0; p < 3; p++ {
+		for _, kl := range []int{1, 16, 20, 32, 63, 64, 65, 100} {
+			for _, sl := range []int{0, 1, 55, 56, 64, 119, 120, 200} {
+				if c.Mine() {
+					c07PrfPlus(c, p, kl, sl)
+				}
+			}
+		}
+	}
 	nonceLens := []int{1, 2, 16, 31, 32, 33, 63, 64, 65, 128, 512}
 	secLens := []int{1, 20, 64, 65, 128, 256, 512}
 	for p := 0; p < 3; p++ {
